@@ -80,6 +80,8 @@ pub struct CWorld {
     /// transport write calls of the client (all connections together) from this index on fail (usize::MAX: never)
     pub fail_writes_from: Arc<std::sync::atomic::AtomicUsize>,
     pub write_calls: Arc<std::sync::atomic::AtomicUsize>,
+    /// the server starts its side of a new connection (TLS accept) this many milliseconds after the dial
+    pub accept_delay_ms: Arc<std::sync::atomic::AtomicU64>,
     old: Option<anytls_rs::verif::Dialer>,
 }
 
@@ -112,6 +114,8 @@ impl CWorld {
         let fail_writes_from = Arc::new(std::sync::atomic::AtomicUsize::new(usize::MAX));
         let write_calls = Arc::new(std::sync::atomic::AtomicUsize::new(0));
         let (fw, wc) = (fail_writes_from.clone(), write_calls.clone());
+        let accept_delay_ms = Arc::new(std::sync::atomic::AtomicU64::new(0));
+        let ad = accept_delay_ms.clone();
         let dialer: anytls_rs::verif::Dialer = Rc::new(move |_addr: &str| {
             use std::sync::atomic::Ordering::SeqCst;
             if rd.load(SeqCst) > 0 {
@@ -121,8 +125,11 @@ impl CWorld {
             let (a, b) = tokio::io::duplex(1 << 20);
             if dh.load(SeqCst) > 0 {
                 dh.fetch_sub(1, SeqCst);
-                // accepted and dropped at once: the client's TLS handshake sees the end of the transport
-                drop(b);
+                // accepted and dropped 2 ms later: the client's TLS handshake sees the end of the transport
+                tokio::spawn(async move {
+                    tokio::time::sleep(Duration::from_millis(2)).await;
+                    drop(b);
+                });
                 let log = Arc::new(Mutex::new(ConnLog { eof: true, ..Default::default() }));
                 c2.lock().unwrap().push(log);
                 k2.lock().unwrap().push(Arc::new(tokio::sync::Notify::new()));
@@ -133,7 +140,11 @@ impl CWorld {
             let kill = Arc::new(tokio::sync::Notify::new());
             k2.lock().unwrap().push(kill.clone());
             let push = push.clone();
+            let delay = ad.load(std::sync::atomic::Ordering::SeqCst);
             tokio::spawn(async move {
+                if delay > 0 {
+                    tokio::time::sleep(Duration::from_millis(delay)).await;
+                }
                 tokio::select! {
                     biased;
                     _ = kill.notified() => {}
@@ -144,7 +155,7 @@ impl CWorld {
         });
         let old = anytls_rs::verif::install_dialer(Some(dialer));
         let client = Arc::new(Client::with_pool_config("pw", "in-memory:1".to_string(), ServerName::try_from("localhost").unwrap(), connector(), padding, pool));
-        CWorld { client, conns, kills, refuse_dials, drop_before_handshake, fail_writes_from, write_calls, old }
+        CWorld { client, conns, kills, refuse_dials, drop_before_handshake, fail_writes_from, write_calls, accept_delay_ms, old }
     }
 
     /// The server drops connection `i` (abruptly, as seen from the client: end of the transport).
